@@ -500,7 +500,9 @@ class _FilesHooks(Hooks):
 
 def container(repo: Repo, chk: Check) -> None:
     f2p, p2f = repo.func(f'{P}.files_to_proto'), repo.func(f'{P}.proto_to_files')
-    files = [('alpha.ml', Sym('impl_a', 'str')), ('alpha.mli', Sym('intf_a', 'str')), ('beta.ml', Sym('impl_b', 'str'))]
+    # (module names that end in the letters of the extensions - `raw_level.ml`, `sc_rollup_wasm.mli` - are ordinary names of the protocol sources)
+    files = [('alpha.ml', Sym('impl_a', 'str')), ('alpha.mli', Sym('intf_a', 'str')), ('beta.ml', Sym('impl_b', 'str')),
+             ('raw_level.ml', Sym('impl_l', 'str')), ('sc_rollup_wasm.mli', Sym('intf_m', 'str')), ('sc_rollup_wasm.ml', Sym('impl_m', 'str'))]
     it = Interp(repo, _FilesHooks(), max_depth=3)
 
     def go(i):
